@@ -117,6 +117,9 @@ MIXED = {"a": 1, "b": "b", "c": 2.5, "zz": "zz"}
 def val(case, name):
     # "alias": a variable whose *value* is spelled like a terminal's (they stay different grammar symbols)
     name = (case.get("alias") or {}).get(name, name)
+    if case["valmode"] == "ivar":
+        # int-valued variables (what pda.to_cfg() and cfg.intersection() produce); terminals stay strings
+        return VARS.index(name) if name in VARS else name
     if case["valmode"] == "mixed":
         # terminal values of different, mutually incomparable types (int, str, float); variables stay strings
         return MIXED.get(name, name)
